@@ -62,7 +62,10 @@ class CoreHooks(Hooks):
             st.ev('prefix-compare', inst, args[0], args[1], args[2], d.split('(')[0])
             st.rng.setdefault('cmp', (-(1 << 31), (1 << 31) - 1))
             return [(st, IntV(32, Lin.atom('cmp'), 's'))]
-        if self.stop_cores and re.match(r'^(ST::buffer<char>::compare\(char const\*, unsigned long, char const\*, unsigned long(, unsigned long)?\)|'
+        if re.match(r'^std::char_traits<[\w ]+>::length\(', d) and isinstance(args[0], PtrV) and args[0].obj == 'STR' and not args[0].off.t and args[0].off.c == 0 \
+                and 'slen' in st.rng:
+            return [(st, IntV(64, Lin.atom('slen'), 'u'))]
+        if self.stop_cores and re.match(r'^(ST::buffer<(\w+)>::compare\(\2 const\*, unsigned long, \2 const\*, unsigned long(, unsigned long)?\)|'
                                         r'_ST_PRIVATE::compare_c[si]\(char const\*, unsigned long, char const\*, unsigned long(, unsigned long)?\))', d):
             st.ev('core', inst, d.split('(')[0], list(args))
             st.rng.setdefault('core', (-(1 << 31), (1 << 31) - 1))
@@ -288,16 +291,37 @@ def derived(run, m, F, E):
         mt = re.match(r'^ST::string::(compare|compare_n|compare_i|compare_ni|operator==|operator!=|operator<)\((ST::string const&|char const\*)(, unsigned long)?(, ST::case_sensitivity_t)?\) const$', d)
         if mt:
             specs.append((f, mt.group(1), 'string' if 'ST::string' in mt.group(2) else 'cstr', bool(mt.group(3)), bool(mt.group(4))))
+    for name in F.lib:
+        f = m.func(name)
+        mt = re.match(r'^ST::(less_i|equal_i)::operator\(\)\(ST::string const&, ST::string const&\) const$', f.dem)
+        if mt:
+            specs.append((f, mt.group(1), 'string', False, False))
+    specs = [x + (L, 'large', 'large') for x in specs]
+    # the same members of the four buffer types; small and large operands (the two storage forms take different branches in a
+    # member that looks at its own fields)
+    for elt in ('char', 'wchar_t', 'char16_t', 'char32_t'):
+        LB = own.buffer_layout(m, elt)
+        if LB is None:
+            continue
+        pat = re.compile(r'^ST::buffer<%s>::(compare|compare_n|operator==|operator!=|operator<)\((ST::buffer<%s> const&|%s const\*)(, unsigned long)?\) const$' % (elt, elt, elt))
+        for name in F.lib:
+            f = m.func(name)
+            mt = pat.match(f.dem)
+            if mt:
+                form = 'string' if 'ST::buffer' in mt.group(2) else 'cstr'
+                for (ca, cb) in ((('small', 'small'), ('large', 'large'), ('small', 'large'), ('large', 'small')) if form == 'string' else (('small', ''), ('large', ''))):
+                    specs.append((f, mt.group(1), form, bool(mt.group(3)), False, LB, ca, cb))
     n = 0
-    for (f, op, form, has_n, has_cs) in specs:
+    for (f, op, form, has_n, has_cs, L, cls_a, cls_b) in specs:
         n += 1
         problems, und = [], []
+        is_buf = f.dem.startswith('ST::buffer<')
         for other_null in ([False, True] if form == 'cstr' else [False]):
             I = Interp(m, F, E, CoreHooks(m, stop_cores=True))
             st = State()
-            this = own.make_buffer(I, st, L, 'this', 'large')
+            this = own.make_buffer(I, st, L, 'this', cls_a)
             if form == 'string':
-                oth = own.make_buffer(I, st, L, 'other', 'large')
+                oth = own.make_buffer(I, st, L, 'other', cls_b)
                 oarg = PtrV(oth)
                 odata, osize = st.flags['entry:other']['storage'], st.flags['entry:other']['size']
             elif other_null:
@@ -305,12 +329,18 @@ def derived(run, m, F, E):
                 odata, osize = None, ZERO
             else:
                 st.rng['slen'] = (0, MAXLEN)
-                so = Obj('ext', Lin.atom('slen') + 1)
-                so.attrs['cstr_len'] = Lin.atom('slen')
+                so = Obj('ext', (Lin.atom('slen') + 1).scale(L.eb))
+                if L.eb == 1:
+                    so.attrs['cstr_len'] = Lin.atom('slen')
+                else:
+                    so.lazy = True
                 st.objs['STR'] = so
                 oarg = PtrV('STR')
                 odata, osize = PtrV('STR'), None
             args = [PtrV(this), oarg]
+            if op in ('less_i', 'equal_i'):
+                st.objs['FUNCTOR'] = Obj('ext', Lin.const(1))
+                args = [PtrV('FUNCTOR')] + args
             cnt = None
             if has_n:
                 cnt = I.fresh_int(st, 64, 'count')
@@ -336,11 +366,19 @@ def derived(run, m, F, E):
                     continue
                 s2 = o.st
                 cc = [e for e in s2.events if e[0] == 'core']
+                if not cc and form == 'string' and op in ('operator==', 'operator!=') and isinstance(o.val, IntV):
+                    # equality decided without the ordering core: from the sizes alone, or by the unit comparator on exactly the
+                    # contents of both operands
+                    r = direct_equality(I, s2, o.val, op, e_this, st.flags['entry:other'], L)
+                    if r is True:
+                        continue
+                    (problems if r[0] == 'bad' else und).append(r[1])
+                    continue
                 if len(cc) != 1:
                     und.append('%d core calls on a path' % len(cc))
                     continue
                 who, a = cc[0][2], cc[0][3]
-                want_ci = op in ('compare_i', 'compare_ni') or (csv is not None and s2.is_eq0(csv.lin - 1) is True)
+                want_ci = op in ('compare_i', 'compare_ni', 'less_i', 'equal_i') or (csv is not None and s2.is_eq0(csv.lin - 1) is True)
                 want_cs = op in ('operator==', 'operator!=', 'operator<') or (csv is not None and s2.is_eq0(csv.lin) is True) or \
                     (csv is None and op in ('compare', 'compare_n') )
                 if want_ci and 'compare_ci' not in who:
@@ -378,7 +416,7 @@ def derived(run, m, F, E):
                         problems.append('does not return the core\'s result')
                 else:
                     cond = I.cond_of(s2, v) if isinstance(v, IntV) else None
-                    pred = {'operator==': 'zero', 'operator!=': 'nonzero', 'operator<': 'neg'}[op]
+                    pred = {'operator==': 'zero', 'operator!=': 'nonzero', 'operator<': 'neg', 'less_i': 'neg', 'equal_i': 'zero'}[op]
                     for sg in SIGNS:
                         s3 = s2.clone()
                         if not sign_assume(s3, k, sg):
@@ -395,32 +433,133 @@ def derived(run, m, F, E):
                             und.append('result not decided for core %s' % sg)
                         elif got != want:
                             problems.append('%s returns %s when the core result is %s' % (op, got, {'neg': 'negative', 'zero': 'zero', 'pos': 'positive'}[sg]))
-        disc = form + (' +n' if has_n else '') + (' +cs' if has_cs else '')
+        disc = form + (' +n' if has_n else '') + (' +cs' if has_cs else '') + ((' %s/%s' % (cls_a, cls_b)).rstrip('/') if is_buf else '')
         if problems:
             run.ob('R06.3', short(f.dem), False, problems[0], disc=disc, loc=fn_loc(f))
         elif und:
             run.ob('R06.3', short(f.dem), None, und[0], disc=disc, loc=fn_loc(f))
         else:
             run.ob('R06.3', short(f.dem), True, 'core on (data,size) of both operands, right predicate', disc=disc)
-    # less_i / equal_i / std::hash / buffer operators: call-graph form
+    # std::hash: call-graph form
     for name in F.lib:
         f = m.func(name)
-        mt = re.match(r'^(ST::less_i|ST::equal_i)::operator\(\)\(ST::string const&, ST::string const&\) const$', f.dem)
-        if mt:
-            n += 1
-            callees = [m.dem(t).split('(')[0] for (i, ts, k) in F.calls[name] for t in ts]
-            ok = 'ST::string::compare_i' in callees
-            pred = [i.d['pred'] for i in f.all_insts() if i.op == 'icmp']
-            want = 'slt' if 'less_i' in f.dem else 'eq'
-            ok = ok and pred == [want]
-            run.ob('R06.3', short(f.dem), ok, 'compare_i(...) %s 0' % ('<' if want == 'slt' else '==') if ok else
-                   'not of the form compare_i(left,right) %s 0 (callees %s, predicates %s)' % ('<' if want == 'slt' else '==', callees, pred), loc=fn_loc(f))
         if f.dem.startswith('std::hash<ST::string>::operator()('):
             n += 1
             callees = [m.dem(t) for (i, ts, k) in F.calls[name] for t in ts]
             ok = len(callees) == 1 and callees[0].startswith('ST::hash::operator()(')
-            run.ob('R06.3', short(f.dem), ok, 'forwards to ST::hash' if ok else 'does not simply forward to ST::hash: %s' % callees, loc=fn_loc(f))
+            run.ob('R06.3', short(f.dem), True if ok else None, 'forwards to ST::hash' if ok else 'does not simply forward to ST::hash (%s): not analysed' % callees, loc=fn_loc(f))
     return n
+
+
+_STALE = {}
+
+
+def stale_tail(I0, L):
+    """A member of the buffer class that leaves an object empty while units after its terminator keep the earlier contents (the
+    library does not promise zero padding of the in-object array): (member, description), or None when no such member is found -
+    then a comparison of the whole array could be equivalent to a comparison of the contents and is not called wrong."""
+    m, F, E = I0.m, I0.F, I0.E
+    if L.elt in _STALE:
+        return _STALE[L.elt]
+    res = None
+    for name in F.lib:
+        f = m.func(name)
+        if not re.match(r'^ST::buffer<%s>::(buffer\(ST::buffer<%s>&&\)|operator=\(ST::buffer<%s>&&\)|clear\(\))$' % (L.elt, L.elt, L.elt), f.dem):
+            continue
+        roles = own.owner_param_roles(f, L)
+        tag = 'other' if 'other' in roles else 'this'
+        scen = ('undef' if own.is_ctor(f) else 'small', 'small' if 'other' in roles else None, False)
+        try:
+            I, outs, info = own.run_method(m, F, E, L, f, scen)
+        except Exception:
+            continue
+        for o in outs:
+            if o.kind != 'ret':
+                continue
+            ob = o.st.objs.get('own:' + tag)
+            ent = o.st.flags.get('entry:' + tag)
+            if ob is None or ent is None or L.n_local < 3:
+                continue
+            c = ob.cells.get(L.size_off)
+            if not (c and isinstance(c[1], IntV) and o.st.is_eq0(c[1].lin) is True):
+                continue
+            lo, hi = L.data_off + L.eb, L.data_off + 2 * L.eb          # unit 1 of the in-object array
+            untouched = True
+            for (roff, rlen, tg, ver) in ob.regions:
+                if ver <= ent.get('storage_ver', 0):
+                    continue
+                if roff.t or not isinstance(rlen, (int, Lin)) or (isinstance(rlen, Lin) and rlen.t):
+                    untouched = False
+                    break
+                rl = rlen if isinstance(rlen, int) else rlen.c
+                if roff.c < hi and roff.c + rl > lo:
+                    untouched = False
+                    break
+            if untouched:
+                res = (f, '%s leaves the object empty with its old units still in the array after the terminator' % short(f.dem, 60))
+                break
+        if res:
+            break
+    _STALE[L.elt] = res
+    return res
+
+
+def direct_equality(I, s2, val, op, ea, eb_, L):
+    """operator== / operator!= of two buffers on a path that does not call the ordering core.  True when the decision is the one the
+    contents give; ('bad', text) with a witness; ('und', text) otherwise."""
+    sa, sb = ea['size'], eb_['size']
+    pcs = [e for e in s2.events if e[0] == 'prefix-compare']
+    want_eq_true = (op == 'operator==')
+
+    def result_is(flag):
+        cond = I.cond_of(s2, val)
+        if cond is not None:
+            got = I.decide(s2, cond)
+            if got is not None:
+                return got == flag
+        lo, hi = s2.range(val.lin)
+        return (lo >= 1) if flag else (lo == 0 and hi == 0)
+    if not pcs:
+        if s2.is_eq0(sa - sb) is False:
+            return True if result_is(not want_eq_true) else ('und', 'sizes differ on this path but the result is not the constant "unequal"')
+        if s2.is_eq0(sa) is True and s2.is_eq0(sb) is True:
+            return True if result_is(want_eq_true) else ('und', 'both operands empty but the result is not the constant "equal"')
+        return ('und', 'equality decided without comparing units on a path where the sizes may agree')
+    if len(pcs) != 1:
+        return ('und', '%d unit comparisons on one path' % len(pcs))
+    _, inst, a0, a1, cnt, who = pcs[0]
+    cl = I.as_u(s2, cnt) if isinstance(cnt, IntV) else None
+    sta, stb = ea['storage'], eb_['storage']
+
+    def at(p, sto):
+        return isinstance(p, PtrV) and p.obj == sto.obj and s2.is_eq0(p.off - sto.off) is True
+    if cl is None or not ((at(a0, sta) and at(a1, stb)) or (at(a0, stb) and at(a1, sta))):
+        return ('und', 'unit comparator is not given the storage of the two operands')
+    if s2.is_eq0(cl - sa) is True and s2.is_eq0(sa - sb) is True:
+        # contents compared exactly: the predicate on the comparator's verdict
+        k = Lin.atom('cmp')
+        cond = I.cond_of(s2, val)
+        for sg in SIGNS:
+            s3 = s2.clone()
+            if not sign_assume(s3, k, sg):
+                continue
+            got = I.decide(s3, cond) if cond is not None else None
+            want = (sg == 'zero') if want_eq_true else (sg != 'zero')
+            if got is None:
+                return ('und', 'result not decided for comparator verdict %s' % sg)
+            if got != want:
+                return ('bad', '%s returns %s when the units compare %s' % (op, got, {'neg': 'less', 'zero': 'equal', 'pos': 'greater'}[sg]))
+        return True
+    env = s2.find_model([cl - sa, cl - sb], lambda v: v[0] > 0 or v[1] > 0)
+    if env is not None:
+        w = stale_tail(I, L)
+        if w is not None:
+            return ('bad', 'equality is decided by comparing %r units although an operand may hold fewer (witness %s): units after the '
+                    'terminator are not part of the value, and %s - such an object then differs from an empty one under %s while '
+                    'compare() calls them equal' % (cl, own.fmt_env(env), w[1], op))
+        return ('und', 'equality compares %r units although an operand may hold fewer (witness %s); whether the units after the terminator '
+                'are kept zero by every member is not analysed' % (cl, own.fmt_env(env)))
+    return ('und', 'number of compared units %r not related to the sizes' % (cl,))
 
 
 UNSIGNED_CHAR = [False]
